@@ -261,6 +261,13 @@ struct World {
         (void)plan; (void)op; (void)note;
         return "-";
     }
+    // false: an abnormal termination at this op lies outside the property's quantified domain (e.g. the
+    // configuration was never accepted); it is tallied under other_observations, never reported
+    virtual bool crash_in_domain(const std::string &property, const Json &plan, int op, const std::string &note) const
+    {
+        (void)property; (void)plan; (void)op; (void)note;
+        return true;
+    }
     // invariant id a crash during this plan is charged to
     virtual std::string crash_invariant(const std::string &property) const { return property + ".no_abnormal_termination"; }
     // argument simplifications tried after ddmin (each a complete candidate plan)
